@@ -19,6 +19,61 @@ CLAIMED = {
         "words, sentinels in dead slots and process crashes (unsafe-precondition aborts are attributed to the stimulus); "
         "UB without observable effect is out of reach. Capacities above 4 are covered by random histories, not exhaustively.",
    design="5/C06"),
+ "C12": dict(
+   text="Fork.tla models the fork at two layers (ForkShared as coded over RingBuffer.tla's Bounded; per-branch positions). TLC explores "
+        "the whole tree of branch schedules (length 9 quick / 11 thorough, capacity 1..3 / 1..4, every start offset, with re-splits, lead <= capacity) "
+        "checking InOrder/PullOnce/PendingOK/Content in every state and emits every complete schedule as a stimulus; each is executed on the real "
+        "by_ref and by_rc branches over an instrumented source (plus long random schedules, capacity <= 16) and TLC validates frame, both pending "
+        "counts and the source pull count after every call. Thorough adds an Apalache inductive-invariant check of the integer abstraction ForkAbs "
+        "for ANY capacity and unbounded histories.",
+   note="Trusted: TLC, Apalache (thorough), harness loggers. Frames are i32; schedules violating the property's own lead assumption are not judged. "
+        "Exhaustive only up to the stated schedule length/capacity; beyond that random schedules and the abstraction's inductive invariant.",
+   design="5/C12"),
+ "C13": dict(
+   text="Bus.tla models SharedNode as coded (backlog, frames_read map, pulled) and the property layer (attach point, received count per output). "
+        "TLC explores the tree of all send/next/drop sequences (length 8 quick / 10 thorough, <= 3 live outputs) checking GapFree, Pending, PullOnce, "
+        "Backlog, Content in every state and emits every maximal sequence; each runs on the real Bus (plus random histories with up to 6 live outputs, "
+        "finite and infinite sources) and TLC validates frame, every live output's pending count and exhaustion flag, the pull count and the backlog "
+        "length (verification hook) after every operation. Thorough adds the Apalache inductive invariant of BusAbs (unbounded histories).",
+   note="Trusted: TLC, Apalache (thorough), harness loggers, the one-line cfg-guarded accessor Bus::verif_backlog_len. Outputs are identified by creation "
+        "order. Exhaustive to the stated depth with <= 3 live outputs; more outputs only randomly.",
+   design="5/C13"),
+ "C14": dict(
+   text="Buffered.tla models Buffered::next/next_frames/is_exhausted over RingBuffer.tla's Bounded and the property layer (stream = prefill, source, "
+        "padding; buffered count; pulls). TLC explores the tree of all call sequences (length 3 quick / 4 thorough over next, next_frames taking "
+        "0/1/cap/cap+1, is_exhausted) from every valid pre-fill/start offset, capacity 1..3 / 1..4 and several source lengths, checking StreamIs, "
+        "PullQuantum, ExhIff, PadLtCap, NoPoison, and emits every sequence; each runs on the real type (plus random histories, capacity <= 32) and TLC "
+        "validates frames/batches, the pull count and the exhaustion flag after every call. Thorough adds the Apalache inductive invariant of BufferedAbs.",
+   note="Trusted: TLC, Apalache (thorough), harness loggers. The source is an instrumented user Signal (frame k = k, exhausted after srclen pulls). "
+        "Exhaustive to the stated depth/capacity only.",
+   design="5/C14"),
+ "C17": dict(
+   text="Osc.tla models phase accumulation (integer/dyadic layer 1, binary64 layer 2), saw, square, sine at algebraic special points and noise as an "
+        "uninterpreted function of (seed, index). TLC checks PhaseRange/PhaseStep/SawRel/SquareRel/AmpRange/HzPulls/SineSpecial and noise determinism on "
+        "rates {1..16}, per-frame frequencies 0..40 and histories of any length, emits exact-domain stimuli; the harness runs Phase, Sine, Saw, Square, "
+        "NoiseSimplex, Noise (incl. the top seeds, clones, restarts) on these and on random rates/frequencies, and TLC validates every frame in dyadic "
+        "arithmetic (phase recurrence within 2 ulp / exactly when representable, saw, square, range, sine special points to 1e-12, antisymmetry, "
+        "frequency pulls, noise determinism).",
+   note="Trusted: TLC, Big/Dyadic arithmetic modules (cross-checked against numpy), harness loggers. Sine accuracy away from phases k/24 and simplex "
+        "noise beyond its range are not decided; the oscillators' private phase is observed through a Phase built on an identical source.",
+   design="5/C17"),
+ "C18": dict(
+   text="Sinc.tla models the sinc interpolator over RingBuffer.tla's Fixed (idx, priming clamp, reset, unit impulse on the grid) and the converter at "
+        "ratio 1. TLC checks GridDelay/ConvDelay/TapRange/ResetInit on depth 1..3 / 1..4 for all push/reset histories and emits them; the harness runs "
+        "them and random runs (depth <= 32; f64, f32, i16; fractional positions; four interleaved instances fed a, b, a+b, 2^k a; constant passages; "
+        "reset vs fresh twin) and TLC validates transparency on the grid (1e-12 peak), exact power-of-two scaling, superposition, finiteness, the 1% "
+        "constant-input clause for depth >= 4 and reset = fresh, in dyadic arithmetic.",
+   note="Trusted: TLC, Big/Dyadic, harness loggers. The kernel's shape is not fixed by the property and not checked; the superposition tolerance is "
+        "head-room (4*depth*eps*peak), not a worst-case bound.",
+   design="5/C18"),
+ "C20": dict(
+   text="Window.tla models the Window iterator (phases i/(n-1)), Hann via the sine table, Rectangle, and the Windower schedule (count, offsets, size "
+        "hint). TLC checks ChunkCount/ChunkContent/Coverage/HintOK for L 0..10, b 2..5, h 1..12 (quick; larger thorough) and emits every (L,b,h) x "
+        "window x frame format; the harness runs them and random L <= 4096, and TLC validates the chunk schedule, every chunk sample bit for bit "
+        "against SampleFormats.MulAmp with the window values observed from the stand-alone Window, the Hann shape (special points, symmetry, ends, "
+        "centre, monotone, range) and the size hint before every next().",
+   note="Trusted: TLC, Big/Dyadic/SampleFormats, harness loggers. Hann accuracy away from special points is bounded only by symmetry/range/monotonicity.",
+   design="5/C20"),
 }
 NOT_YET = "framework under construction in this session; check not built yet (will be claimed, see DESIGN.md section 5)"
 
@@ -29,7 +84,7 @@ m = {
   "guard": "rustaudio_dasp_verif",
   "enable": "rustflags --cfg rustaudio_dasp_verif in /verif/harness/.cargo/config.toml (cargo is always run from /verif/harness)",
   "baseline_off_cmd": "cd /repo && cargo test --workspace --no-fail-fast --offline",
-  "source_commits": [],
+  "source_commits": ["eb4e423"],
   "add_only": True,
  },
  "engines": [
